@@ -15,7 +15,8 @@ ALPHA = {'a': 'Ch 0', 'é': 'Ch 1', '<': 'Ch 2', '&': 'Ch 3', ' ': 'Sp', '\t': '
 
 
 def cs(s):
-    return '[' + ';'.join(ALPHA[c] for c in s) + ']'
+    # any other character gets the next free small index (characters are opaque to the model)
+    return '[' + ';'.join(ALPHA.setdefault(c, 'Ch %d' % (len(ALPHA) + 10)) for c in s) + ']'
 
 
 def abs_items(elem_xml):
@@ -64,6 +65,15 @@ def gen_inputs(tier, rng):
             s = ''.join(tup)
             for cut in range(0, n + 1):
                 inputs.append((('Paragraph', 'Span', 'Header')[k % 3], [s[:cut], s[cut:]])); k += 1
+    # edge stream: long runs of spaces (the text:s count gets several decimal digits), leading / inner / trailing,
+    # alone and next to tabs / newlines, whole or cut inside the run
+    runs = list(range(2, 31)) + [99, 100, 101, 110, 199, 200, 201, 999, 1000, 1001] if tier != "quick" else \
+        [2, 3, 8, 9, 10, 11, 12, 19, 20, 21, 22, 99, 100, 101, 199, 200, 1000]
+    for n in runs:
+        sp = ' ' * n
+        for s, cut in ((sp + 'b', n // 2), ('a' + sp + 'b', 1 + n // 2), ('a' + sp, n), ('\t' + sp + '\n', n), (sp, n - 1)):
+            inputs.append((('Paragraph', 'Span', 'Header')[k % 3], [s])); k += 1
+            inputs.append((('Paragraph', 'Span', 'Header')[k % 3], [s[:cut], s[cut:]])); k += 1
     exhaustive_part = len(inputs)
     syms = 'aé<&"Z 中 \t\n    '
     for _ in range(1500 if tier == "quick" else 60000):
